@@ -1,6 +1,7 @@
 package main
 
 import (
+	"go/token"
 	"sort"
 	"strings"
 
@@ -146,6 +147,98 @@ func (p *Prog) unitInstrs(anchor *ssa.Function, fn func(ssa.Instruction)) {
 // inUnit reports whether f belongs to the unit of anchor.
 func (p *Prog) inUnit(anchor, f *ssa.Function) bool {
 	return anchor != nil && p.unitOf(anchor)[f]
+}
+
+// canonIn maps a value used inside code split off from the anchor back to the anchor's own terms: a parameter of a helper
+// in the unit becomes the argument passed at the helper's (single) call site inside the unit, a free variable of a
+// closure becomes the captured variable's value; applied repeatedly. Values that cannot be mapped are returned as is.
+func (p *Prog) canonIn(anchor *ssa.Function, v ssa.Value) ssa.Value {
+	u := p.unitOf(anchor)
+	for depth := 0; depth < 6; depth++ {
+		switch x := v.(type) {
+		case *ssa.Parameter:
+			g := x.Parent()
+			if g == anchor || !u[g] {
+				return v
+			}
+			idx := -1
+			for k, q := range g.Params {
+				if q == x {
+					idx = k
+				}
+			}
+			var arg ssa.Value
+			n := 0
+			for _, cs := range p.CallersOf(g) {
+				if !u[cs.Parent()] {
+					continue
+				}
+				args := callArgs(cs.Common())
+				if idx >= 0 && idx < len(args) {
+					arg = args[idx]
+					n++
+				}
+			}
+			if n != 1 {
+				return v
+			}
+			v = arg
+		case *ssa.FreeVar:
+			g := x.Parent()
+			if !u[g] {
+				return v
+			}
+			idx := -1
+			for k, q := range g.FreeVars {
+				if q == x {
+					idx = k
+				}
+			}
+			var bound ssa.Value
+			if refs := ssa.Value(g).Referrers(); refs != nil {
+				for _, r := range *refs {
+					if mc, ok := r.(*ssa.MakeClosure); ok && idx >= 0 && idx < len(mc.Bindings) {
+						bound = mc.Bindings[idx]
+					}
+				}
+			}
+			if bound == nil {
+				return v
+			}
+			v = bound
+		case *ssa.UnOp:
+			// load of a captured variable cell: *cell where cell is the closure's view of a spilled parameter
+			if x.Op != token.MUL {
+				return v
+			}
+			inner := p.canonIn(anchor, x.X)
+			if al, ok := inner.(*ssa.Alloc); ok {
+				// the value stored into the cell at function entry (a spilled parameter)
+				for _, r := range *al.Referrers() {
+					if st, isSt := r.(*ssa.Store); isSt && st.Addr == ssa.Value(al) {
+						if prm, isP := st.Val.(*ssa.Parameter); isP {
+							return p.canonIn(anchor, prm)
+						}
+					}
+				}
+			}
+			return v
+		default:
+			return v
+		}
+	}
+	return v
+}
+
+// unitFindCall: first call in the unit whose callee name ends in suffix.
+func (p *Prog) unitFindCall(anchor *ssa.Function, suffix string) *ssa.Call {
+	var out *ssa.Call
+	p.unitInstrs(anchor, func(i ssa.Instruction) {
+		if call, ok := i.(*ssa.Call); ok && out == nil && strings.HasSuffix(calleeName(&call.Call), suffix) {
+			out = call
+		}
+	})
+	return out
 }
 
 // unitReturns: the return instructions of the anchor and of the code split off from it. When a body was moved into a
